@@ -180,7 +180,7 @@ PROPS["C16"] = dict(
 
 PROPS["C07"] = dict(
     suites=["c07"],
-    lean_modules=["ServlinVerif.Props.C07"],
+    lean_modules=["ServlinVerif.Props.C07", "ServlinVerif.Props.C07Prefix"],
     audit="Audit/C07.lean",
     rule="copy_chunked_async(scripted reader, scripted writer): one chunk of every length in 1..300, every power of 16 +-2, 65527/65528 and 300 "
          "random lengths (thorough: every length 1..65528); greedy reader on streams of 0..200000 bytes; 600 (6000) random streams up to "
@@ -276,7 +276,7 @@ PROPS["C02"] = dict(
 
 PROPS["C06"] = dict(
     suites=["c06", "c07"],
-    lean_modules=["ServlinVerif.Props.C06", "ServlinVerif.Props.C06RoundTrip", "ServlinVerif.Props.C07"],
+    lean_modules=["ServlinVerif.Props.C06", "ServlinVerif.Props.C06RoundTrip", "ServlinVerif.Props.C06Chunked", "ServlinVerif.Props.C07"],
     audit="Audit/C06.lean",
     rule="write_http_response(scripted writer): every status code 100..999 with rotating content types; 1200 (8000) random responses: all "
          "17 ContentType variants + custom, 0-20 extra fields over all tchar names / printable ASCII+HT values incl. names colliding "
